@@ -29,7 +29,9 @@ ASSUMPTIONS = [
 ]
 
 KEYS = ["displayName", "guestOS", "scsi0:0.fileName", "memsize", "ETHERNET0.address", "annotation", "uuid.bios", ".encoding", "numvcpus",
-        "ide1:0.deviceType", "vmci0.present", "x.y.Z", "scsi0:1.fileName", "sata0:0.fileName", "ide1:0.fileName", "nvme0:0.fileName"]
+        "ide1:0.deviceType", "vmci0.present", "x.y.Z", "scsi0:1.fileName", "sata0:0.fileName", "ide1:0.fileName", "nvme0:0.fileName",
+        # keys are lower-cased, not case-folded: these stay distinct from one another
+        "annotation.Straße", "annotation.STRASSE", "guestinfo.ﬁle", "guestinfo.file", "İstanbul.x", "ǅ.y"]
 # incl. characters str.splitlines() breaks on although only "\n" ends a line of the dictionary syntax
 VALUE_ALPHABET = "abcXYZ0189 =#:/\\-_.,;%+()[]{}'äß€\U0001F98A\u2028\x85\x0c\x1c"
 
